@@ -2,7 +2,7 @@
 # Runs every replay battery on /repo's working tree (injected with go test -overlay, nothing is written to /repo).
 # On the unchanged tree everything must pass except the tests that demonstrate the known findings.
 export GOFLAGS=-mod=mod GOPROXY=off GOSUMDB=off GOTOOLCHAIN=local
-declare -A dirs=( [dials]=. [parse]=parse [sourcewrap]=sourcewrap [ez]=ez [env]=sources/env [caseconversion]=tagformat/caseconversion [tagformat]=tagformat [transform]=transform [json]=decoders/json [flag]=sources/flag [pflag]=sources/pflag )
+declare -A dirs=( [dials]=. [parse]=parse [sourcewrap]=sourcewrap [ez]=ez [env]=sources/env [caseconversion]=tagformat/caseconversion [tagformat]=tagformat [transform]=transform [json]=decoders/json [flag]=sources/flag [pflag]=sources/pflag [flaghelper]=sources/flag/flaghelper )
 tmp=$(mktemp -d); rc=0
 for b in "${!dirs[@]}"; do
   d=${dirs[$b]}
